@@ -2,7 +2,12 @@
 //!
 //! * packs from the REAL `git pack-objects` for random histories (full with `--delta-base-offset`; `--thin`
 //!   against a receiving repository that has the older history; `--depth` / `--window` varied) are stored
-//!   with `gix_pack::Bundle::write_to_directory` with thread limits 1, 2, 3, 4, 8, 16.
+//!   with `gix_pack::Bundle::write_to_directory` with thread limits 1, 2, 3, 4, 8, 16 AND with
+//!   `gix_pack::Bundle::write_to_directory_eagerly` (what clone/fetch use; the entries are read in a thread of
+//!   their own through `EagerIter` once the pack has more objects than the threshold at the call site).
+//!   Packs of many tiny blobs (`git fast-import` + `git pack-objects`) with object counts around the chunk
+//!   size and above the threshold — the constants are read from the call site in gix-pack — and `EagerIter`
+//!   itself against the plain iterator for every length around small chunk sizes.
 //!   Oracle: the `.idx` is byte-identical to what `git index-pack` writes (non-thin) and identical for all
 //!   thread limits; for thin packs the object ids equal those of `git index-pack --fix-thin`, `git
 //!   index-pack` run on the pack gitoxide wrote reproduces gitoxide's `.idx` byte for byte and `git
@@ -35,6 +40,17 @@ fn errmsg(e: &dyn std::error::Error) -> String {
     msg
 }
 
+static NEVER_INTERRUPTED: AtomicBool = AtomicBool::new(false);
+
+fn write_opts(threads: usize) -> gix_pack::bundle::write::Options {
+    gix_pack::bundle::write::Options {
+        thread_limit: Some(threads),
+        iteration_mode: gix_pack::data::input::Mode::Verify,
+        index_version: gix_pack::index::Version::V2,
+        object_hash: gix_hash::Kind::Sha1,
+    }
+}
+
 fn write_pack(
     pack: &[u8],
     dir: &Path,
@@ -42,12 +58,7 @@ fn write_pack(
     thin_odb: Option<&Path>,
 ) -> Result<gix_pack::bundle::write::Outcome, String> {
     let mut rd = std::io::BufReader::new(pack);
-    let opts = gix_pack::bundle::write::Options {
-        thread_limit: Some(threads),
-        iteration_mode: gix_pack::data::input::Mode::Verify,
-        index_version: gix_pack::index::Version::V2,
-        object_hash: gix_hash::Kind::Sha1,
-    };
+    let opts = write_opts(threads);
     let intr = AtomicBool::new(false);
     let mut progress = gix_features::progress::Discard;
     let res = match thin_odb {
@@ -60,6 +71,45 @@ fn write_pack(
         }
     };
     res.map_err(|e| errmsg(&e))
+}
+
+/// the entry point of clone/fetch: the pack is read in a thread of its own
+fn write_pack_eagerly(
+    pack: &[u8],
+    dir: &Path,
+    threads: usize,
+    thin_odb: Option<&Path>,
+    with_size: bool,
+) -> Result<gix_pack::bundle::write::Outcome, String> {
+    let rd: Box<dyn std::io::Read + Send + 'static> = Box::new(std::io::Cursor::new(pack.to_vec()));
+    let size = with_size.then_some(pack.len() as u64);
+    let opts = write_opts(threads);
+    let mut progress = gix_features::progress::Discard;
+    let res = match thin_odb {
+        Some(odb) => {
+            let handle = gix_odb::at(odb).map_err(|e| e.to_string())?;
+            gix_pack::Bundle::write_to_directory_eagerly(rd, size, Some(dir), &mut progress, &NEVER_INTERRUPTED, Some(handle), opts)
+        }
+        None => gix_pack::Bundle::write_to_directory_eagerly(
+            rd,
+            size,
+            Some(dir),
+            &mut progress,
+            &NEVER_INTERRUPTED,
+            None::<gix_odb::Handle>,
+            opts,
+        ),
+    };
+    res.map_err(|e| errmsg(&e))
+}
+
+/// both entry points; `eager` selects
+fn write_pack_via(eager: bool, pack: &[u8], dir: &Path, threads: usize, thin_odb: Option<&Path>) -> Result<gix_pack::bundle::write::Outcome, String> {
+    if eager {
+        write_pack_eagerly(pack, dir, threads, thin_odb, threads % 2 == 0)
+    } else {
+        write_pack(pack, dir, threads, thin_odb)
+    }
 }
 
 fn dir_listing(dir: &Path) -> Vec<String> {
@@ -413,6 +463,44 @@ fn check_pack(rep: &mut Report, sc: &Scratch, tag: &str, pack: &[u8], thin_recv:
             read_back(rep, &ip, &format!("{desc} threads={threads}"));
         }
     }
+    // the eager entry point must produce the very same pair
+    if let Some((i0, p0, _)) = &first {
+        for threads in [1usize, 3, 16] {
+            let dir = fresh_dir(sc, &format!("gixe-{tag}-{threads}"));
+            rep.oracle_checked();
+            rep.bucket("entry-eager");
+            let odb = thin_recv.map(|r| r.join("objects"));
+            let kind = if thin_recv.is_some() { "thin" } else { "full" };
+            match catch(|| write_pack_eagerly(pack, &dir, threads, odb.as_deref(), threads != 3)) {
+                Ok(Ok(o)) => {
+                    let idx = o.index_path.as_ref().and_then(|p| std::fs::read(p).ok()).unwrap_or_default();
+                    let written = o.data_path.as_ref().and_then(|p| std::fs::read(p).ok()).unwrap_or_default();
+                    if idx != *i0 || written != *p0 {
+                        rep.oracle_failure(
+                            "write_to_directory_eagerly writes another pack or index than write_to_directory",
+                            &format!("{desc} threads={threads}: idx {} vs {} bytes, pack {} vs {} bytes", idx.len(), i0.len(), written.len(), p0.len()),
+                            "",
+                        );
+                    }
+                    if threads == 3 {
+                        if let Some(ip) = &o.index_path {
+                            read_back(rep, ip, &format!("{desc} eager threads={threads}"));
+                        }
+                    }
+                }
+                Ok(Err(e)) => rep.oracle_failure(
+                    &format!("a pack of git pack-objects ({kind}) is rejected by write_to_directory_eagerly"),
+                    &format!("{desc} threads={threads}: {e}"),
+                    "",
+                ),
+                Err(p) => rep.oracle_failure(
+                    &format!("storing a pack of git pack-objects ({kind}) eagerly panics"),
+                    &format!("{desc} threads={threads}: {p}"),
+                    "",
+                ),
+            }
+        }
+    }
     let (idx, written, ip) = first?;
     // object ids as git sees them
     let ids = idx_ids(&gitdir, &ip);
@@ -723,7 +811,12 @@ fn fault_case(rep: &mut Report, sc: &Scratch, pack: &[u8], what: &str, recv: Opt
     rep.oracle_checked();
     rep.bucket(if what.starts_with("trunc") { "fault-truncation" } else { "fault-flip" });
     let odb = recv.map(|r| r.join("objects"));
-    let res = catch(|| write_pack(pack, &dir, threads, odb.as_deref()));
+    static FAULT_NO: std::sync::atomic::AtomicUsize = std::sync::atomic::AtomicUsize::new(0);
+    let eager = FAULT_NO.fetch_add(1, std::sync::atomic::Ordering::Relaxed) % 2 == 1;
+    if eager {
+        rep.bucket("fault-eager-entry");
+    }
+    let res = catch(|| write_pack_via(eager, pack, &dir, threads, odb.as_deref()));
     let left = dir_listing(&dir);
     let kind = if recv.is_some() { "thin" } else { "full" };
     match res {
@@ -793,6 +886,11 @@ fn header_faults(rep: &mut Report, sc: &Scratch, pack: &[u8], recv: Option<&Path
     }
 }
 
+/// `inner_write` against what is already in the directory. Correspondence: the flags after the call go to the
+/// Lean persist protocol (`persist <pack exists> <idx exists> <fail>`). Oracle on the real code: after `Ok` the
+/// reported pack and index both exist and every object reads back — whatever was there before (nothing, the
+/// pair, the pack without its index as left by an attempt that died between the two renames, the index without
+/// its pack) and through both entry points.
 fn persist_cases(rep: &mut Report, sc: &Scratch, pack: &[u8]) {
     let flags = |dir: &Path, before: &[String]| -> String {
         let now = dir_listing(dir);
@@ -801,40 +899,263 @@ fn persist_cases(rep: &mut Report, sc: &Scratch, pack: &[u8]) {
         let tmp = now.iter().any(|f| !f.starts_with("pack-")) as u8;
         format!("pack={} idx={} keep={} tmp={}", has(".pack"), has(".idx"), new_keep, tmp)
     };
-    // fresh directory
-    let dir = fresh_dir(sc, "persist");
-    let r = catch(|| write_pack(pack, &dir, 2, None));
-    if !matches!(r, Ok(Ok(_))) {
-        rep.oracle_failure("persist: storing a pack into a fresh directory fails", &format!("{r:?}"), "");
+    // a directory holding the pair, to copy from
+    let proto = fresh_dir(sc, "persist-proto");
+    let r = catch(|| write_pack(pack, &proto, 2, None));
+    let Ok(Ok(o0)) = r else {
+        rep.oracle_failure("persist: storing a pack into a fresh directory fails", &format!("{:?}", r.map(|r| r.map(|_| ()))), "persist 0 0 none");
         return;
-    }
-    rep.case("persist 0 0 none", &flags(&dir, &[]), true);
-    // the same pack again: the pair exists
-    for f in dir_listing(&dir) {
-        if f.ends_with(".keep") {
-            let _ = std::fs::remove_file(dir.join(f));
+    };
+    let (Some(idx0), Some(pack0)) = (o0.index_path.clone(), o0.data_path.clone()) else {
+        rep.oracle_failure("no pack/index path reported for a non-empty pack", "persist", "persist 0 0 none");
+        return;
+    };
+    let idx_bytes = std::fs::read(&idx0).unwrap_or_default();
+    for eager in [false, true] {
+        for (have_pack, have_idx) in [(false, false), (true, true), (true, false), (false, true)] {
+            let op = format!("persist {} {} none", have_pack as u8, have_idx as u8);
+            let via = if eager { "write_to_directory_eagerly" } else { "write_to_directory" };
+            let dir = fresh_dir(sc, "persist");
+            if have_pack {
+                std::fs::copy(&pack0, dir.join(pack0.file_name().unwrap())).unwrap();
+            }
+            if have_idx {
+                std::fs::copy(&idx0, dir.join(idx0.file_name().unwrap())).unwrap();
+            }
+            let before = dir_listing(&dir);
+            rep.oracle_checked();
+            rep.bucket(&format!("persist-pre-pack{}-idx{}", have_pack as u8, have_idx as u8));
+            match catch(|| write_pack_via(eager, pack, &dir, 2, None)) {
+                Ok(Ok(o)) => {
+                    let ip = o.index_path.clone().unwrap_or_default();
+                    let dp = o.data_path.clone().unwrap_or_default();
+                    if !ip.is_file() || !dp.is_file() {
+                        rep.oracle_failure(
+                            "persist: Ok is returned but the reported pack or index does not exist",
+                            &format!(
+                                "{via}, directory before: {before:?} -> Ok(index_path {:?} exists={}, data_path {:?} exists={}), directory now: {:?}",
+                                ip.file_name(),
+                                ip.is_file(),
+                                dp.file_name(),
+                                dp.is_file(),
+                                dir_listing(&dir)
+                            ),
+                            &op,
+                        );
+                    } else {
+                        if std::fs::read(&ip).unwrap_or_default() != idx_bytes {
+                            rep.oracle_failure("persist: the index next to the pack is not the index of the pack", &format!("{via}, directory before: {before:?}"), &op);
+                        }
+                        if std::fs::read(&dp).unwrap_or_default() != pack {
+                            rep.oracle_failure("persist: the pack under its final name is not the received pack", &format!("{via}, directory before: {before:?}"), &op);
+                        }
+                        read_back(rep, &ip, &format!("{op} through {via}"));
+                    }
+                    if have_pack != o.keep_path.is_none() {
+                        rep.oracle_failure(
+                            "persist: a .keep file is reported for a pack that existed (or none for a new one)",
+                            &format!("{via}, directory before: {before:?}, keep_path {:?}", o.keep_path),
+                            &op,
+                        );
+                    }
+                }
+                Ok(Err(e)) => rep.oracle_failure("persist: storing a valid pack fails because of what is in the directory", &format!("{via}, directory before: {before:?}: {e}"), &op),
+                Err(p) => rep.oracle_failure("persist: storing a valid pack panics", &format!("{via}, directory before: {before:?}: {p}"), &op),
+            }
+            if !eager {
+                rep.case(&op, &flags(&dir, &before), true);
+            } else {
+                // the same op line as for the other entry point: compared with it here, with the model there
+                let mut d0 = fresh_dir(sc, "persist-cmp");
+                if have_pack {
+                    std::fs::copy(&pack0, d0.join(pack0.file_name().unwrap())).unwrap();
+                }
+                if have_idx {
+                    std::fs::copy(&idx0, d0.join(idx0.file_name().unwrap())).unwrap();
+                }
+                let b0 = dir_listing(&d0);
+                let _ = catch(|| write_pack(pack, &d0, 2, None));
+                if flags(&d0, &b0) != flags(&dir, &before) {
+                    rep.oracle_failure(
+                        "persist: the two entry points leave different files",
+                        &format!("directory before: {before:?}: eager {} vs {}", flags(&dir, &before), flags(&d0, &b0)),
+                        &op,
+                    );
+                }
+                d0.clear();
+            }
+        }
+        // failing input
+        let dir = fresh_dir(sc, "persist2");
+        let _ = catch(|| write_pack_via(eager, &pack[..pack.len() - 7], &dir, 2, None));
+        if !eager {
+            rep.case("persist 0 0 index", &flags(&dir, &[]), true);
+        } else if flags(&dir, &[]) != "pack=0 idx=0 keep=0 tmp=0" {
+            rep.oracle_failure("a rejected full pack stream leaves files behind", &format!("eager entry point, truncated pack: {:?}", dir_listing(&dir)), "persist 0 0 index");
         }
     }
-    let before = dir_listing(&dir);
-    let r = catch(|| write_pack(pack, &dir, 2, None));
-    match &r {
-        Ok(Ok(o)) if o.keep_path.is_none() => {}
-        other => rep.oracle_failure("persist: storing an existing pack again", &format!("{:?}", other.as_ref().map(|r| r.as_ref().map(|o| o.keep_path.clone()))), ""),
-    }
-    rep.case("persist 1 1 none", &flags(&dir, &before), true);
-    // the pack exists, the index does not
-    for f in dir_listing(&dir) {
-        if f.ends_with(".idx") {
-            let _ = std::fs::remove_file(dir.join(f));
+}
+
+// ---------------------------------------------------------------------------------------------
+// the eager entry point: EagerIter and packs with many objects
+// ---------------------------------------------------------------------------------------------
+
+/// `(threshold, chunk_size, chunks_in_flight)` of `EagerIterIf::new(move || num_objects > T, iter, C, F)` in
+/// `Bundle::write_to_directory_eagerly`, read from the source the harness was built against.
+fn eager_constants(rep: &mut Report) -> (usize, usize, usize) {
+    let fallback = (25_000usize, 5_000usize, 5usize);
+    let manifest = include_str!("../Cargo.toml");
+    let root = manifest
+        .lines()
+        .find(|l| l.starts_with("gix-pack"))
+        .and_then(|l| l.split('"').nth(1))
+        .map(PathBuf::from);
+    let Some(root) = root else {
+        rep.note("eager constants: gix-pack path not found in Cargo.toml, using 25000/5000/5");
+        return fallback;
+    };
+    let src = std::fs::read_to_string(root.join("src/bundle/write/mod.rs")).unwrap_or_default();
+    let parsed = (|| {
+        let at = src.find("EagerIterIf::new(")?;
+        let call = &src[at..];
+        let call = &call[..call.find(");")?];
+        let nums: Vec<usize> = call
+            .split(|c: char| !(c.is_ascii_digit() || c == '_'))
+            .filter(|t| t.chars().any(|c| c.is_ascii_digit()))
+            .filter_map(|t| t.replace('_', "").parse().ok())
+            .collect();
+        (nums.len() == 3).then(|| (nums[0], nums[1], nums[2]))
+    })();
+    match parsed {
+        Some(c) => {
+            rep.note(&format!("eager constants read from {}: threshold {} chunk {} in flight {}", root.display(), c.0, c.1, c.2));
+            c
+        }
+        None => {
+            rep.note("eager constants: call site of EagerIterIf::new not recognised, using 25000/5000/5");
+            fallback
         }
     }
-    let before = dir_listing(&dir);
-    let _ = catch(|| write_pack(pack, &dir, 2, None));
-    rep.case("persist 1 0 none", &flags(&dir, &before), true);
-    // failing input
-    let dir = fresh_dir(sc, "persist2");
-    let _ = catch(|| write_pack(&pack[..pack.len() - 7], &dir, 2, None));
-    rep.case("persist 0 0 index", &flags(&dir, &[]), true);
+}
+
+/// `EagerIter` must yield exactly what the wrapped iterator yields, for every length around the chunk size
+fn eager_iter_cases(rep: &mut Report, consts: (usize, usize, usize)) {
+    let (threshold, chunk, in_flight) = consts;
+    let mut combos: Vec<(usize, usize, usize)> = Vec::new();
+    for c in [1usize, 2, 3, 5, 8] {
+        for f in [0usize, 1, 5] {
+            for n in 0..=3 * c + 1 {
+                combos.push((n, c, f));
+            }
+        }
+    }
+    for n in [0, 1, chunk - 1, chunk, chunk + 1, 2 * chunk, 2 * chunk + 1, in_flight * chunk + 1, threshold, threshold + 1, threshold + chunk + 1] {
+        combos.push((n, chunk, in_flight));
+    }
+    for (n, c, f) in combos {
+        rep.oracle_checked();
+        rep.bucket(if n % c == 0 { "eager-iter-full-last-chunk" } else { "eager-iter-partial-last-chunk" });
+        let got = catch(move || gix_features::parallel::EagerIter::new(0..n, c, f).collect::<Vec<usize>>());
+        match got {
+            Ok(v) => {
+                if v.len() != n || v.iter().enumerate().any(|(i, x)| i != *x) {
+                    rep.oracle_failure(
+                        "EagerIter does not yield what the wrapped iterator yields",
+                        &format!("{n} items, chunk size {c}, {f} chunks in flight: {} items arrive, first difference at {:?}", v.len(), v.iter().enumerate().find(|(i, x)| i != *x).map(|t| t.0).unwrap_or(v.len())),
+                        &format!("eageriter {n} {c} {f}"),
+                    );
+                }
+            }
+            Err(p) => rep.oracle_failure("EagerIter panics", &format!("{n} items, chunk size {c}, {f} in flight: {p}"), &format!("eageriter {n} {c} {f}")),
+        }
+    }
+}
+
+/// a pack of `n` distinct tiny blobs made by the real git
+fn many_blobs_pack(sc: &Scratch, n: usize, salt: u64) -> Option<Vec<u8>> {
+    let repo = fresh_dir(sc, "many");
+    git_ok(&repo, &["init", "-q"], None);
+    let mut stream = Vec::with_capacity(n * 24);
+    for i in 0..n {
+        let body = format!("{salt:x}.{i}");
+        stream.extend_from_slice(format!("blob\ndata {}\n{}\n", body.len(), body).as_bytes());
+    }
+    let fi = git(&repo, &["fast-import", "--quiet"], Some(&stream));
+    if !fi.ok {
+        return None;
+    }
+    // everything fast-import wrote, as one pack of pack-objects
+    let ids = git(&repo, &["cat-file", "--batch-all-objects", "--batch-check=%(objectname)"], None);
+    if !ids.ok {
+        return None;
+    }
+    let out = git(&repo, &["pack-objects", "-q", "--stdout", "--window=0"], Some(&ids.stdout));
+    out.ok.then_some(out.stdout)
+}
+
+fn big_pack_cases(rep: &mut Report, sc: &Scratch, rng: &mut Rng, consts: (usize, usize, usize), thorough: bool) {
+    let (threshold, chunk, _) = consts;
+    // around the chunk size (read on demand as long as the threshold is above them), just above the threshold
+    // with a partly filled last chunk, a multiple of the chunk size above the threshold
+    let mut counts = vec![chunk - 1, chunk, chunk + 1, 2 * chunk + 1, threshold + 1, threshold + chunk + 1, (threshold / chunk + 1) * chunk];
+    if thorough {
+        counts.extend([threshold, threshold + 2, threshold + chunk - 1, 2 * threshold + 1 + rng.usize(chunk - 1)]);
+    }
+    counts.sort();
+    counts.dedup();
+    for n in counts {
+        let Some(pack) = many_blobs_pack(sc, n, rng.u64()) else {
+            rep.note(&format!("big pack: git could not make a pack of {n} blobs"));
+            continue;
+        };
+        let desc = format!("{n} tiny blobs, pack of {} bytes", pack.len());
+        rep.bucket(if n > threshold { "big-pack-above-threshold" } else { "big-pack-below-threshold" });
+        rep.bucket(if n % chunk == 0 { "big-pack-full-last-chunk" } else { "big-pack-partial-last-chunk" });
+        let gitdir = fresh_dir(sc, "git-big");
+        std::fs::write(gitdir.join("in.pack"), &pack).unwrap();
+        let ip = git(&gitdir, &["index-pack", "in.pack"], None);
+        rep.git_checked(1);
+        if !ip.ok {
+            rep.note(&format!("{desc}: git index-pack refuses its own pack"));
+            continue;
+        }
+        let git_idx = std::fs::read(gitdir.join("in.idx")).unwrap_or_default();
+        for (eager, threads) in [(true, 4usize), (true, 1), (false, 4)] {
+            let dir = fresh_dir(sc, "gix-big");
+            rep.oracle_checked();
+            let via = if eager { "write_to_directory_eagerly" } else { "write_to_directory" };
+            match catch(|| write_pack_via(eager, &pack, &dir, threads, None)) {
+                Ok(Ok(o)) => {
+                    let idx = o.index_path.as_ref().and_then(|p| std::fs::read(p).ok()).unwrap_or_default();
+                    let written = o.data_path.as_ref().and_then(|p| std::fs::read(p).ok()).unwrap_or_default();
+                    if o.index.num_objects as usize != n {
+                        rep.oracle_failure("a pack of many objects is indexed with another object count", &format!("{desc} through {via}: {}", o.index.num_objects), "");
+                    }
+                    if idx != git_idx {
+                        rep.oracle_failure("index differs from git index-pack (full pack)", &format!("{desc} through {via} threads={threads}: {} vs {} bytes", idx.len(), git_idx.len()), "");
+                    }
+                    if written != pack {
+                        rep.oracle_failure("the stored pack differs from the received one (full pack)", &format!("{desc} through {via} threads={threads}"), "");
+                    }
+                    if eager && threads == 4 && (n == threshold + 1 || n == chunk + 1) {
+                        if let Some(ip) = &o.index_path {
+                            read_back(rep, ip, &format!("{desc} through {via}"));
+                        }
+                    }
+                }
+                Ok(Err(e)) => rep.oracle_failure(
+                    &format!("a pack of git pack-objects (full) is rejected{}", if eager { " by write_to_directory_eagerly" } else { "" }),
+                    &format!("{desc} threads={threads}: {e}"),
+                    &format!("bigpack {n} {via}"),
+                ),
+                Err(p) => rep.oracle_failure(
+                    &format!("storing a pack of git pack-objects (full){} panics", if eager { " eagerly" } else { "" }),
+                    &format!("{desc} threads={threads}: {p}"),
+                    &format!("bigpack {n} {via}"),
+                ),
+            }
+        }
+    }
 }
 
 fn main() {
@@ -924,6 +1245,9 @@ fn real_main() {
     if let Some(p) = &first_full {
         persist_cases(&mut rep, &sc, p);
     }
+    let consts = eager_constants(&mut rep);
+    eager_iter_cases(&mut rep, consts);
+    big_pack_cases(&mut rep, &sc, &mut rng, consts, args.thorough);
     crafted_packs(&mut rep, &sc, &mut rng, args.budget(25, 400));
     rep.finish();
 }
